@@ -191,8 +191,12 @@ Definition plain_sync (p : ts_procedure) (P : ts_sched) : ts_outcome :=
 (* ------------------------------------------------------------------------------------------ *)
 (* bytes                                                                                       *)
 
-Definition ts_byte_at (v : Z) (i : Z) : N := Z.to_N ((v / 256 ^ i) mod 256).
-Definition le48 (v : Z) : list N := map (ts_byte_at v) [0; 1; 2; 3; 4; 5].
+Fixpoint ts_le_bytes (n : nat) (v : Z) : list N :=
+  match n with
+  | O => []
+  | S k => Z.to_N (v mod 256) :: ts_le_bytes k (v / 256)
+  end.
+Definition le48 (v : Z) : list N := ts_le_bytes 6 v.
 Definition de48 (b0 b1 b2 b3 b4 b5 : N) : Z :=
   Z.of_N b0 + 256 * (Z.of_N b1 + 256 * (Z.of_N b2 + 256 * (Z.of_N b3 + 256 * (Z.of_N b4 + 256 * Z.of_N b5)))).
 
